@@ -273,7 +273,12 @@ fn pk_case(rec: &mut Rec, ctx: &Ctx, idx: u64, rng: &mut ChaCha20Rng) {
       // a key can only be an "original" if all its points encode group elements; a loader
       // that also refuses keys holding 32 bytes that are no element is within the statement
       (Some(None), Some(_)) => {
-        if model_pk(&inp).map(|(b, mp)| is_element(&b) && mp.values().all(|v| is_element(v))).unwrap_or(false) {
+        // ... and so is one that refuses non-canonical forms of a key (trailing bytes, padding,
+        // repeated or unsorted tags): only the exact serialisation of a key must load
+        let canonical = model_pk(&inp).map(|(b, mp)| model_pk_encode(&b, &mp) == inp).unwrap_or(false);
+        if !canonical {
+          rec.ev("pk_non_canonical_rejected")
+        } else if model_pk(&inp).map(|(b, mp)| is_element(&b) && mp.values().all(|v| is_element(v))).unwrap_or(false) {
           rec.violation(
             &format!("pk-valid-rejected:{}", desc.split(':').next().unwrap()),
             format!("load_from_bincode rejected decodable bytes within the size limit ({}, {} bytes)", desc, inp.len()),
